@@ -631,6 +631,12 @@ class Interp:
             if all(isinstance(v, Tup) for v in vs) and vs:
                 return Tup([Tup(list(x)) for x in zip(*[v.elts for v in vs])])
             return Opaque(U(e))
+        if txt == 'divmod' and len(args) == 2:
+            a = self.eval(args[0], st, func, selfobj)
+            b = self.eval(args[1], st, func, selfobj)
+            if isinstance(a, Poly) and isinstance(b, Poly):
+                return Tup([T.floordiv(a, b), T.mod(a, b)])
+            return Opaque(U(e))
         if txt == 'slice':
             vs = [self.eval(a, st, func, selfobj) for a in args]
             if len(vs) == 1:
